@@ -22,7 +22,7 @@ RULE = ("record lists = every multiset of m<=M records over a 4-pixel alphabet (
         "records, validator V on the output, explicit temp_dir empty after return (plus one fresh-interpreter run). Non-trivial: >=2 "
         "chunks. Distinct by construction.")
 BOUNDS = {"quick": "M=3; mergebuf {1,2,1e6} x max_merge {1,2,200} on the symmetric fixed-width line, 3 diagonal combinations for streams with an empty chunk / square mode / variable table; empty-chunk insertions on partitions with <=2 blocks",
-          "thorough": "M=4; mergebuf {1,2,3,m,1e6} x max_merge {1,2,3,200}; empty-chunk insertions everywhere for M<=3"}
+          "thorough": "M=4; mergebuf {1,2,3,m,1e6} x max_merge {1,2,3,200} (full product for M<=3 and on the symmetric fixed-width line for M=4, three diagonal combinations for square mode / variable table at M=4); empty-chunk insertions everywhere for M<=3"}
 ASSUMPTIONS = ["records repeated inside one chunk are pre-summed by the harness (a chunk must not contain duplicate pixels; combining "
                "across chunks is what the property is about)", "values are small integers / dyadic rationals: sums are exact"]
 EXPECT_CLASSES = {"*": ["chunks:1", "chunks:2", "chunks:3", "two-pass", "single-pass", "with-empty-chunk", "cli"]}
@@ -104,8 +104,8 @@ def _api(R, unit, tier, only):
     for part, kind in streams:
         for buf in bufs:
             for mm in mms:
-                if not th and (kind == "with-empty" or not symm or tab == "V") and (buf, mm) not in ((1, 1), (2, 2), (10 ** 6, 200)):
-                    continue   # quick: reduced (mergebuf, max_merge) product off the main line
+                if (not th or m >= 4) and (kind == "with-empty" or not symm or tab == "V") and (buf, mm) not in ((1, 1), (2, 2), (10 ** 6, 200)):
+                    continue   # quick (and four-record lists in thorough): reduced (mergebuf, max_merge) product off the main line
                 for srt in ((True, False) if (buf, mm) == (bufs[0], mms[-1]) and m else (True,)):
                     kk += 1
                     inner = {"chunks": part, "mergebuf": buf, "max_merge": mm, "sorted": srt}
